@@ -42,7 +42,7 @@ def execute(case):
     tags = [{"tag": s["tag"], "script": otproject.script_of_tag(s["tag"])} for s in F["gpos"]["scripts"]]
     return [{"tid": case["cid"], "n": len(order), "order": order, "glyphs": [{"scripts": props[n]["scripts"], "single": props[n]["single"]} for n in order],
              "tags": tags, "declared": case["declared"], "F": F, "_fea": fea,
-             "declaredPairs": [[m.group(1), (m.group(2) + "    ")[:4] if m.group(2) != "dflt" else "dflt"]
+             "declaredPairs": [[(m.group(1) + "    ")[:4], (m.group(2) + "    ")[:4] if m.group(2) != "dflt" else "dflt"]
                                for m in __import__("re").finditer(r"languagesystem\s+(\S+)\s+(\S+)\s*;", case["ufo"]["fea"])]}]
 
 
